@@ -3,6 +3,7 @@ package main
 // Function and lemma verification: builds obligations and discharges them.
 
 import (
+	"path/filepath"
 	"regexp"
 	"fmt"
 	"go/ast"
@@ -52,6 +53,7 @@ type UnitResult struct {
 }
 
 var pEventRe = regexp.MustCompile(`count\("P:([^"]+)"\)`)
+var pfEventRe = regexp.MustCompile(`count\("p:([^"]+)"\)`)
 
 type VerifyOpts struct {
 	Safety  bool
@@ -101,6 +103,7 @@ func (w *World) VerifyFunc(fi *FuncInfo, c *Contract, opts VerifyOpts) (res *Uni
 	ex.info, ex.pkg = fi.Pkg.TypesInfo, fi.Pkg.Types
 	ex.safety, ex.traceEvents = opts.Safety || opts.Bounds, opts.Events || (c != nil && len(c.AtCall) > 0)
 	ex.pEvents = nil
+	ex.pfEvents = nil
 	if c != nil {
 		seenP := map[string]bool{}
 		var texts []string
@@ -114,6 +117,28 @@ func (w *World) VerifyFunc(fi *FuncInfo, c *Contract, opts VerifyOpts) (res *Uni
 		}
 		for _, ac := range c.AtCall {
 			texts = append(texts, ac.Clause.Text)
+			// at-call P:<substring> requires ...: the P calls whose literal text contains the substring
+			if strings.HasPrefix(ac.Callee, "P:") && !seenP[ac.Callee[2:]] {
+				seenP[ac.Callee[2:]] = true
+				ex.pEvents = append(ex.pEvents, ac.Callee[2:])
+			}
+			// the same for a printf-style printer passed as a function value named p: "p:<substring of the format>"
+			if strings.HasPrefix(ac.Callee, "p:") && !seenP["\x00"+ac.Callee[2:]] {
+				seenP["\x00"+ac.Callee[2:]] = true
+				ex.pfEvents = append(ex.pfEvents, ac.Callee[2:])
+			}
+		}
+		for _, t := range texts {
+			for _, m := range pfEventRe.FindAllStringSubmatch(t, -1) {
+				if !seenP["\x00"+m[1]] {
+					seenP["\x00"+m[1]] = true
+					ex.pfEvents = append(ex.pfEvents, m[1])
+				}
+			}
+		}
+		if len(ex.pfEvents) > 0 {
+			sort.Strings(ex.pfEvents)
+			ex.traceEvents = true
 		}
 		for _, t := range texts {
 			for _, m := range pEventRe.FindAllStringSubmatch(t, -1) {
@@ -497,7 +522,19 @@ func (ex *Exec) discharge(opts VerifyOpts) []OblResult {
 		var where []string
 		hasQuant := ex.c.HasQuantAxioms()
 		for _, in := range o.Insts {
-			if in.Goal == "true" || in.PC == "false" {
+			if in.PC == "false" {
+				continue
+			}
+			if in.Goal == "true" {
+				// holds syntactically on this path: nothing to refute, but the path counts for the reachability (vacuity) guard
+				var qf []string
+				for _, c := range in.PCs {
+					if !isQuantified(c) {
+						qf = append(qf, c)
+					}
+				}
+				reach = append(reach, and(qf...))
+				reachFull = append(reachFull, in.PC)
 				continue
 			}
 			disj = append(disj, and(in.PC, not(in.Goal)))
@@ -542,6 +579,9 @@ func (ex *Exec) discharge(opts VerifyOpts) []OblResult {
 					rr := Solve(reachScript, 5*time.Second, false)
 					results[i].SolverMs += rr.Ms
 					if rr.Status == "unsat" {
+						if d := os.Getenv("GOVC_DUMP_VACUOUS"); d != "" {
+							os.WriteFile(filepath.Join(d, safeName(results[i].Name)+".reach.smt2"), []byte(reachScript), 0o644)
+						}
 						results[i].Status = "vacuous"
 						results[i].Raw = "every path that reaches this obligation has contradictory hypotheses (quantifier-free part already unsatisfiable): nothing is proved"
 					} else if reachFullScript != "" && !strings.Contains(results[i].Backend, "without quantified assumptions") {
